@@ -23,7 +23,7 @@ def floors(tier):
     return {'distinct_nontrivial': 1000 if tier == 'quick' else 80000, 'inverse_returned': 700, 'two_sided_checked': 700,
             'singular_operands_seen': 40, 'zerodivision_checked_against_oracle': 40, 'division_checked': 300,
             'number_over_x_checked': 150, 'negative_power_checked': 150, 'd5_closed_form_cases': 40, 'd6plus_iterative_cases': 100, 'd6plus_degenerate_r2_cases': 60,
-            'padded_or_permuted_layouts': 300, 'empty_dividends': 60, 'single_grade_non_blade_operands': 40}
+            'padded_or_permuted_layouts': 300, 'empty_dividends': 60, 'single_grade_non_blade_operands': 40, 'inverse_after_in_place_update': 100}
 
 
 def plan(tier, seed):
@@ -225,8 +225,27 @@ def one_operand(ctx, alg, iso, cfg, name, canon, unit):
         ctx.violation(kind, cid, op='inv', d=d, singular_per_oracle=sing, high_precision_recheck=hp, max_abs_error=err,
                       inverse=show_elem(mv_dict(xi)), products=bad, **wit)
         return
-    # division, number / x, negative powers
+    # history on one object: invert, update a coefficient in place, invert again - the second inverse belongs to the new coefficients
     rng = ctx.rng
+    if rng.random() < 0.2 and isinstance(x.values(), list):
+        j = rng.randrange(len(keys))
+        newv = vals[keys[j]] + rng.choice((1, 2, -1))
+        x.values()[j] = newv
+        vals2 = dict(vals)
+        vals2[keys[j]] = newv
+        fresh = ops.value_mv(alg, keys, vals2)
+        stA, ia = ctx.guarded(to, lambda: x.inv())
+        stB, ib = ctx.guarded(to, lambda: fresh.inv())
+        ctx.count('inverse_after_in_place_update')
+        if stA == 'ok' and stB == 'ok':
+            if elem_diff(mv_dict(ia), mv_dict(ib), tol=1e-9 if exact else 1e-6):
+                ctx.violation('x.inv() after an in-place update is not the inverse of the updated x', cid + ['stale'], op='inv', d=d,
+                              updated_key=keys[j], new_value=str(newv), got=show_elem(mv_dict(ia)), expected=show_elem(mv_dict(ib)), **wit)
+        elif (stA == 'ok') != (stB == 'ok') and 'timeout' not in (stA, stB):
+            ctx.violation('x.inv() after an in-place update behaves differently from a fresh multivector with the same coefficients', cid + ['stale'],
+                          op='inv', d=d, same_object=repr(ia)[:100] if stA == 'exc' else 'value', fresh_object=repr(ib)[:100] if stB == 'exc' else 'value', **wit)
+        x.values()[j] = vals[keys[j]]
+    # division, number / x, negative powers
     ka = gen.random_subset(rng, canon, min(unit['cap'], 4), 1)
     r_ = rng.random()
     if r_ < 0.12:
